@@ -5,7 +5,7 @@ CONSTANTS
   Kind = "nameaddr"
   Atoms <- AtomsExpBig
   Prefix <- PfxExp32
-  MaxLen = 26
+  MaxLen = 25
   Cfgs <- CfgsNA8
   Junk = 34
   EmitOn = TRUE
